@@ -319,7 +319,8 @@ class Inliner:
         return None
 
     # -- statement-level ----------------------------------------------------------------------
-    def inline_stmt(self, st: ast.stmt, caller, cls, stack) -> Optional[List[ast.stmt]]:
+    def inline_stmt(self, st: ast.stmt, caller, cls, stack, rest: Optional[List[ast.stmt]] = None):
+        """(replacement statements, rest_consumed) or None"""
         v, kind = None, None
         if isinstance(st, ast.Expr):
             v, kind = st.value, "expr"
@@ -346,6 +347,15 @@ class Inliner:
         if b is None:
             return None
         body, pre, uid = b
+        # continuation duplication: a helper that returns a distinguishing constant (None / True / False) on some
+        # paths and something else on others is followed in the caller by a test of that result; to keep the
+        # correlation between the helper's branch and the caller's test, the rest of the caller's block is copied
+        # behind every delivery and tests of the result against its known constant are folded there
+        rets = [x for s_ in body for x in q.walk_local(s_) if isinstance(x, ast.Return)]
+        consts = [x for x in rets if x.value is None or (isinstance(x.value, ast.Constant) and x.value.value in (None, True, False))]
+        target = st.targets[0].id if kind == "assign" and isinstance(st, ast.Assign) and isinstance(st.targets[0], ast.Name) else None
+        dup = bool(rest) and target is not None and len(rets) >= 2 and len(rets) <= 5 and consts and sum(1 for s_ in rest for _ in ast.walk(s_)) * len(rets) <= 6000 \
+            and not any(isinstance(x, FuncNode + (ast.ClassDef,)) for s_ in rest for x in ast.walk(s_))
 
         def deliver(value):
             val = value if value is not None else ast.Constant(value=None)
@@ -354,14 +364,23 @@ class Inliner:
             if kind == "assign":
                 new = copy.deepcopy(st)
                 new.value = val
+                if dup:
+                    cont = [copy.deepcopy(s_) for s_ in rest]
+                    if isinstance(val, ast.Constant):
+                        cont = _fold_known(cont, target, val.value)
+                    return [new] + cont
                 return [new]
             return [ast.Return(value=val)]
 
+        consumed = False
         if kind == "return":
             out = pre + body + ([] if _terminates(body) else [ast.Return(value=ast.Constant(value=None))])
         else:
             t = _tailify(body, deliver)
+            if t is not None and dup:
+                consumed = True
             if t is None:
+                dup = False
                 if _return_in_loop(body):
                     return None
                 res = "_h%d_result" % uid
@@ -390,9 +409,7 @@ class Inliner:
                 if not hasattr(x, "lineno"):
                     ast.copy_location(x, st)
         self.inlined.append(h.name)
-        # nested inlining inside the inlined body
-        self.block(out, caller, cls, stack + (h.name,))
-        return out
+        return out, consumed
 
     # -- expression-level -------------------------------------------------------------------------
     def expr_calls(self, e: ast.AST) -> List[Tuple[ast.Call, bool]]:
@@ -466,21 +483,16 @@ class Inliner:
                     break
                 if not uncond:
                     continue
+                if self.bind(h, bkind, c) is None:
+                    continue
                 self.uid += 1
                 tmp = "_h%d_value" % self.uid
                 assign = ast.Assign(targets=[ast.Name(id=tmp, ctx=ast.Store())], value=c)
                 ast.copy_location(assign, st)
-                got = self.inline_stmt(assign, caller, cls, stack)
-                if got is None:
-                    continue
                 self._replace(holder, attr, c, ast.Name(id=tmp, ctx=ast.Load()))
-                for g in got:
-                    ast.fix_missing_locations(g)
-                stmts[i:i] = got
-                i += len(got)
-                inserted += len(got)
-                done = True
-                break
+                ast.fix_missing_locations(assign)
+                stmts[i:i] = [assign]
+                return inserted + 1  # the caller re-processes from the hoisted statement
             if not done:
                 break
         return inserted
@@ -498,21 +510,23 @@ class Inliner:
 
     # -- driver ----------------------------------------------------------------------------------------
     def block(self, stmts: List[ast.stmt], caller, cls, stack: Tuple[str, ...]) -> None:
-        if len(stack) > 3:
-            return
         i = 0
         while i < len(stmts):
             s = stmts[i]
             if isinstance(s, FuncNode + (ast.ClassDef,)):
                 i += 1
                 continue
-            i += self.rewrite_exprs(stmts, i, caller, cls, stack)
-            s = stmts[i]
-            body = self.inline_stmt(s, caller, cls, stack)
-            if body is not None:
-                stmts[i:i + 1] = body
-                i += len(body)
-                continue
+            if self.uid < 80:
+                if self.rewrite_exprs(stmts, i, caller, cls, stack):
+                    continue  # statements were hoisted in front: start again from the first of them
+                res = self.inline_stmt(s, caller, cls, stack, rest=stmts[i + 1:])
+                if res is not None:
+                    out, consumed = res
+                    if consumed:
+                        stmts[i:] = out
+                    else:
+                        stmts[i:i + 1] = out
+                    continue
             for fld in ("body", "orelse", "finalbody"):
                 sub = getattr(s, fld, None)
                 if isinstance(sub, list) and sub and isinstance(sub[0], ast.stmt):
@@ -520,6 +534,60 @@ class Inliner:
             for hd in getattr(s, "handlers", []) or []:
                 self.block(hd.body, caller, cls, stack)
             i += 1
+
+
+def _fold_known(stmts: List[ast.stmt], name: str, value) -> List[ast.stmt]:
+    """In a straight run of statements in which ``name`` is known to hold the constant ``value`` (until it is
+    re-bound), fold the ``if`` tests that only depend on it."""
+
+    def simp(e):
+        try:
+            return ast.Constant(value=bool(q.fold(e, {name: value})))
+        except q.NotFoldable:
+            pass
+        if isinstance(e, ast.UnaryOp) and isinstance(e.op, ast.Not):
+            o = simp(e.operand)
+            if isinstance(o, ast.Constant):
+                return ast.Constant(value=not o.value)
+            return ast.UnaryOp(op=ast.Not(), operand=o)
+        if isinstance(e, ast.BoolOp):
+            vals = [simp(v) for v in e.values]
+            is_and = isinstance(e.op, ast.And)
+            kept = []
+            for v in vals:
+                if isinstance(v, ast.Constant) and isinstance(v.value, bool):
+                    if v.value != is_and:
+                        # False in an `and` / True in an `or`: decides the whole expression (operands before it have no effect on the outcome)
+                        return ast.Constant(value=v.value) if not kept else ast.BoolOp(op=e.op, values=kept + [v])
+                    continue
+                kept.append(v)
+            if not kept:
+                return ast.Constant(value=is_and)
+            return kept[0] if len(kept) == 1 else ast.BoolOp(op=e.op, values=kept)
+        return e
+
+    out = []
+    known = True
+    for st in stmts:
+        if known and isinstance(st, ast.If):
+            new_test = simp(st.test)
+            if isinstance(new_test, ast.Constant) and isinstance(new_test.value, bool):
+                # decided: keep only the branch that runs; nothing after a branch that always leaves is reachable
+                taken = st.body if new_test.value else st.orelse
+                taken = _fold_known(taken, name, value)
+                out.extend(taken)
+                if _terminates(taken):
+                    return out
+                if any(name in q.assigned_paths(x) for x in taken):
+                    known = False
+                continue
+            if new_test is not st.test:
+                st = ast.copy_location(ast.If(test=ast.copy_location(new_test, st.test), body=st.body, orelse=st.orelse), st)
+                ast.fix_missing_locations(st)
+        out.append(st)
+        if known and name in q.assigned_paths(st):
+            known = False
+    return out or [ast.Pass()]
 
 
 def inlined(repo: Repo, relpath: str, roots: Iterable[str], keep: Callable[[str, ast.AST], bool], relevant: Optional[Callable[[ast.AST], bool]] = None) -> Repo:
